@@ -55,6 +55,13 @@ def _exec_one(args):
     modname, case = args
     if _CHECK is None or _CHECK.__name__ != modname:
         _CHECK = importlib.import_module(modname)
+    # environment dimension: every fifth case (by its content) runs with the root logger at DEBUG -- no property depends on the
+    # logging level, so whatever a debug branch of the library does must leave every observation unchanged
+    import logging
+    dbg = int(hashlib.sha1(json.dumps(case, sort_keys=True, default=str).encode()).hexdigest()[:6], 16) % 5 == 0
+    root = logging.getLogger()
+    prev = root.level
+    root.setLevel(logging.DEBUG if dbg else logging.WARNING)
     try:
         out = _CHECK.execute(case)
     except Exception as ex:  # the real code (or the encoding of its output) blew up
@@ -62,6 +69,8 @@ def _exec_one(args):
             return {"_machinery": str(ex)}
         tb = traceback.format_exc().strip().splitlines()
         out = {"crashed": f"{type(ex).__name__}: {str(ex)[:300]}", "where": tb[-3:] if len(tb) >= 3 else tb}
+    finally:
+        root.setLevel(prev)
     return out
 
 
